@@ -156,7 +156,7 @@ theorem Inv.indexStep {s s' : State} (h : Inv s) (g : Bool) (hs : step s (.index
     have hcur : s.cur < s.blocks.length := c1 (by simp [hseq])
     have hdz : s.directPos = 0 := c3 (by simp [hseq])
     have hk : (blk s s.cur).kind = .sync := c2 (Or.inr hseq)
-    have hdata : (blk s s.cur).data = [] := (blk_wf h.1 s.cur).2.2.2.2.2 hk
+    have hdata : (blk s s.cur).data = [] := (blk_wf h.1 s.cur).2.2.2.2.2.1 hk
     have hthr : s.thr = none := by
       cases ht : s.thr with
       | none => rfl
